@@ -23,7 +23,7 @@ ID = "C20"
 TITLE = "Plots draw exactly the data and matchings they are given"
 CASE_TIMEOUT_S = 120.0
 PLAN = {
-    "quick": {"runs": 1600, "chunk": 10, "shrink_s": 40.0},
+    "quick": {"runs": 4800, "chunk": 10, "shrink_s": 40.0},
     "thorough": {"budget_s": 600.0, "chunk": 10, "shrink_s": 90.0},
 }
 RULE = ("case = K=2..3 clients, each owning a figure/axes, issuing 2..8 calls: plot_diagrams (one or several diagrams, "
